@@ -1874,8 +1874,8 @@ def _commutant_case(draw):
         total += ni * ki
     if not blocks:
         blocks = [[1, 1]]
-    return {"blocks": blocks, "mode": draw(st.sampled_from(["normal", "normal", "set", "jordan"])), "cplx": draw(st.booleans()), "hide": draw(st.booleans()),
-            "form": draw(st.sampled_from(["list", "array"])), "bicommutant": draw(st.booleans()), "seed": draw(gen.SEED)}
+    return {"blocks": blocks, "mode": draw(st.sampled_from(["normal", "normal", "set", "jordan"])), "cplx": draw(st.booleans()),
+            "hide": draw(st.sampled_from(["perm", "unitary", "none"])), "form": draw(st.sampled_from(["list", "array"])), "bicommutant": draw(st.booleans()), "seed": draw(gen.SEED)}
 
 
 def _commutant_generators(case, g):
@@ -1885,7 +1885,8 @@ def _commutant_generators(case, g):
     # a single scalar block gives a multiple of the identity: conjugating it would leave only rounding noise in
     # A (x) I - I (x) A^T, and the exact commutant of "identity + noise" is not the full algebra; keep it exact instead
     scalar = len(blocks) == 1 and (case["mode"] == "normal" or blocks[0][0] == 1)
-    u = H.unitary(g, dim, cplx) if case["hide"] and not scalar else np.eye(dim)
+    hide = "none" if scalar else case["hide"]
+    u = H.unitary(g, dim, cplx) if hide == "unitary" else (H.perm_matrix(g, dim) if hide == "perm" else np.eye(dim))
     if case["mode"] in ("normal", "jordan"):
         # one generator with eigenvalue multiplicities m_i = n_i*k_i (normal) -> commutant dimension sum m_i^2;
         # 'jordan': a single Jordan block J_m(lambda) per distinct eigenvalue -> commutant dimension sum m_i
@@ -1899,7 +1900,10 @@ def _commutant_generators(case, g):
                 a[pos : pos + m, pos : pos + m] += np.diag(np.ones(m - 1), 1)
             pos += m
         if case["mode"] == "jordan":
-            s = (H.unitary(g, dim, cplx) * g.uniform(0.8, 1.25, size=dim)) @ H.unitary(g, dim, cplx) if case["hide"] and dim > 1 else np.eye(dim)
+            if hide == "unitary" and dim > 1:
+                s = (H.unitary(g, dim, cplx) * g.uniform(0.8, 1.25, size=dim)) @ H.unitary(g, dim, cplx)
+            else:
+                s = u
             return [s @ a @ np.linalg.inv(s)], sum(mults)
         return [u @ a @ dag(u)], sum(m * m for m in mults)
     # 'set': three generic generators of (+)_i M_{n_i} (x) I_{k_i}; commutant = (+)_i I_{n_i} (x) M_{k_i}, dimension sum k_i^2
@@ -1916,12 +1920,28 @@ def _commutant_generators(case, g):
     return gens, sum(k * k for _, k in blocks)
 
 
+def _commutant_gap(gens):
+    """Guard: the commutation equations of the *floating-point* generators must have a clean numerical rank.  A planted
+    degeneracy that went through a change of basis is only exact up to rounding (~1e-15), which is where scipy's
+    null_space puts its threshold (eps * max(shape) * sigma_max); the exact commutant of such an input is smaller than the
+    planted one, so nothing is asserted unless every singular value is either < threshold/30 or > 1e4 * threshold."""
+    dim = gens[0].shape[0]
+    k = np.vstack([np.kron(a, np.eye(dim)) - np.kron(np.eye(dim), a.T) for a in gens])
+    sv = np.linalg.svd(k, compute_uv=False)
+    if sv.size == 0 or sv.max() == 0:
+        return
+    thr = np.finfo(float).eps * max(k.shape) * sv.max()
+    if np.any((sv > thr / 30) & (sv < 1e4 * thr)):
+        raise Inconclusive("a singular value of the commutation equations is within rounding distance of null_space's threshold")
+
+
 def check_commutant(case):
     from toqito.matrix_props import commutant
 
     g = gen.rng(case["seed"])
     gens, expdim = _commutant_generators(case, g)
     dim = gens[0].shape[0]
+    _commutant_gap(gens)
     arg = gens if case["form"] == "list" or len(gens) > 1 else gens[0]
     basis = commutant(arg)
     what = f"{len(gens)} generator(s) of size {dim}, mode={case['mode']}, blocks={case['blocks']}, complex={case['cplx']}"
@@ -1939,6 +1959,7 @@ def check_commutant(case):
     # (a commutant that is only C*I is skipped: A (x) I - I (x) A^T is then pure rounding noise and the exact commutant of
     # "identity + noise" is not the full algebra)
     if case["bicommutant"] and 2 <= len(basis) <= 20:
+        _commutant_gap([np.asarray(b) for b in basis])
         bi = commutant([np.asarray(b) for b in basis])
         req(len(bi) >= 1, f"the commutant of the commutant is empty: {what}", "commutant:bicommutant")
         span = np.array([np.asarray(b).reshape(-1) for b in bi]).T
@@ -1950,8 +1971,8 @@ def check_commutant(case):
 
 def _nt_commutant(case):
     dim = sum(n * k for n, k in case["blocks"])
-    if dim >= 3 and (case["hide"] or case["mode"] == "set"):
-        return f"{case['mode']},dim>=3" + (",hidden-basis" if case["hide"] else "") + (",complex" if case["cplx"] else "")
+    if dim >= 3 and (case["hide"] != "none" or case["mode"] == "set"):
+        return f"{case['mode']},dim>=3" + (f",hidden-basis({case['hide']})" if case["hide"] != "none" else "") + (",complex" if case["cplx"] else "")
     return None
 
 
